@@ -74,6 +74,10 @@ def push_gather(t, i=None):
         return t
     if t[0] == "idx" and len(t[2]) == 1 and t[2][0][0] != "slice" and i is None and is_mask(t[1]):
         return push_gather(t[1], t[2][0])
+    if t[0] == "idx" and len(t[2]) == 1 and t[2][0][0] != "slice" and i is None and t[1][0] == "idx" and len(t[1][2]) == 2 \
+            and t[1][2][0] == FULL and t[1][2][1][0] in ("k", "c"):
+        # rows of a pit column: A[:, COL][rows] is A[rows, COL]
+        return ("idx", t[1][1], (t[2][0], t[1][2][1]))
     if t[0] == "u" and t[1] == "~":
         return ("u", "~", push_gather(t[2], i))
     if t[0] == "opn" and t[1] in ("&", "|"):
